@@ -32,7 +32,7 @@ def as_items(x):
 
 def native_parse_outcome(j):
     if j['outcome'] == 'panic':
-        return ('panic', PanicExc('native', 'panic', j.get('msg', '')))
+        return native_panic(j)
     v = j['value']
     if v['r'] == 'ok':
         return ('ret', Ok(Tup([SliceV(bvs(v['rest'])), tree_val(v['tree'])])))
@@ -97,7 +97,7 @@ class TreeRoundTrip(Lane):
 
     def native_outcome(self, cinp, j):
         if j['outcome'] == 'panic':
-            return ('panic', PanicExc('native', 'panic', j.get('msg', '')))
+            return native_panic(j)
         v = j['value']
         pj = {'outcome': 'ok', 'value': v['parsed']}
         return ('ret', {'enc': bvs(v['bytes']), 'parsed': native_parse_outcome(pj)[1]})
@@ -272,7 +272,7 @@ class TagVariants(Lane):
 
     def native_outcome(self, cinp, j):
         if j['outcome'] == 'panic':
-            return ('panic', PanicExc('native', 'panic', j.get('msg', '')))
+            return native_panic(j)
         return ('ret', tree_val(j['value']['tree']))
 
     def summary(self, out, model=None):
